@@ -352,14 +352,21 @@ void cmb_dataset_fivenum_print(const struct cmb_dataset *dsp,
         const double med = data_array_median(dsc.count, dsc.xa);
 
         const unsigned lhsz = dsc.count / 2;
-        const double q1 = data_array_median(lhsz, dsc.xa);
-        double q3;
         const unsigned uhsz = dsc.count - lhsz;
-        if ((dsc.count % 2) == 0) {
+        double q1;
+        double q3;
+        if (dsc.count == 1u) {
+            /* A single sample is all five numbers, there are no halves */
+            q1 = med;
+            q3 = med;
+        }
+        else if ((dsc.count % 2) == 0) {
             /* Even number of entries */
+            q1 = data_array_median(lhsz, dsc.xa);
             q3 = data_array_median(uhsz, &(dsc.xa[lhsz]));
         } else {
             /* Odd number of entries, exclude the median entry */
+            q1 = data_array_median(lhsz, dsc.xa);
             q3 = data_array_median(uhsz - 1, &(dsc.xa[lhsz + 1]));
         }
 
